@@ -74,8 +74,8 @@ Extra == { <<"bool", TRUE>>, F(<<2, 5>>, 1, FALSE), <<"uint", <<1, 2>>>>, F(<<1>
            <<"chr", 99>>, <<"chr", 233>>, <<"chr", 8>>, <<"sym", <<113>>>>, <<"flt", "inf", 1, <<>>, 0, FALSE>>,
            <<"flt", "nan", 0, <<>>, 0, FALSE>>, <<"flt", "fin", 0, <<>>, 0, FALSE>> }
 Sym(n) == <<"sym", <<n>>>>
-KeySeqs1 == { <<Sym(97)>>, << <<"str", <<116>>>> >>, << <<"str", <<34>>>> >>, << <<"sym", AtypeName>> >> }
-KeySeqs2 == { <<Sym(122), Sym(97)>>, <<Sym(97), <<"str", <<116>>>> >>, <<Sym(97), <<"str", ZKeyName>> >> }
+KeySeqs1 == { <<Sym(97)>>, << <<"str", <<116>>>> >>, << <<"sym", AtypeName>> >> }
+KeySeqs2 == { <<Sym(122), Sym(97)>>, <<Sym(97), <<"str", ZKeyName>> >> }
 TypeNames == { HashName, <<114, 101, 99>> }
 Hash(tn, ks, vs) == <<"hash", tn, [i \in 1..Len(ks) |-> <<ks[i], vs[i]>>]>>
 
